@@ -36,6 +36,35 @@ Proof. induction l as [|c l IH]; cbn; [reflexivity|assumption]. Qed.
 Lemma saves_of_map_stop l : saves_of (map EStop l) = 0.
 Proof. induction l as [|c l IH]; cbn; [reflexivity|assumption]. Qed.
 
+Lemma starts_of_app l1 l2 : starts_of (l1 ++ l2) = starts_of l1 ++ starts_of l2.
+Proof. unfold starts_of. apply flat_map_app. Qed.
+Lemma died_of_app l1 l2 : died_of (l1 ++ l2) = died_of l1 ++ died_of l2.
+Proof. unfold died_of. apply flat_map_app. Qed.
+Lemma cntc_app c l1 l2 : cntc c (l1 ++ l2) = cntc c l1 + cntc c l2.
+Proof. unfold cntc. now rewrite filter_app, app_length. Qed.
+Lemma starts_of_map_stop l : starts_of (map EStop l) = [].
+Proof. induction l; cbn; auto. Qed.
+Lemma died_of_map_stop l : died_of (map EStop l) = [].
+Proof. induction l; cbn; auto. Qed.
+
+Lemma cntc_starts_rev c l : cntc c (starts_of (rev l)) = cntc c (starts_of l).
+Proof.
+  induction l as [|e l IH]; [reflexivity|]. cbn [rev].
+  change (e :: l) with ([e] ++ l). rewrite !starts_of_app, !cntc_app, IH. lia.
+Qed.
+Lemma cntc_died_rev c l : cntc c (died_of (rev l)) = cntc c (died_of l).
+Proof.
+  induction l as [|e l IH]; [reflexivity|]. cbn [rev].
+  change (e :: l) with ([e] ++ l). rewrite !died_of_app, !cntc_app, IH. lia.
+Qed.
+
+(* what a piece of the log contributes to the balance "registered + died = started" *)
+Definition log_bal (c : cls) (added : list cls) (l : list ev) : Prop :=
+  cntc c added + cntc c (died_of l) = cntc c (starts_of l).
+
+Lemma log_bal_app c a1 a2 l1 l2 : log_bal c a1 l1 -> log_bal c a2 l2 -> log_bal c (a1 ++ a2) (l2 ++ l1).
+Proof. unfold log_bal. rewrite died_of_app, starts_of_app, !cntc_app. lia. Qed.
+
 (* log entries written while starting: no stop, no save *)
 Definition quiet_ev (e : ev) : bool :=
   match e with EStart _ | EDied _ | ELoop => true | _ => false end.
@@ -88,6 +117,14 @@ Section Family.
   Proof.
     revert i. induction os as [|o os IH]; intros i; [reflexivity|].
     destruct o; cbn; try apply IH; try reflexivity; rewrite forallb_app, IH; reflexivity.
+  Qed.
+
+  Lemma start_log_bal c os : forall i, log_bal c (alive_from mk i os) (start_log i os).
+  Proof.
+    induction os as [|o os IH]; intros i; [reflexivity|].
+    specialize (IH (S i)). unfold log_bal in *.
+    destruct o; cbn [alive_from start_log]; rewrite ?died_of_app, ?starts_of_app, ?cntc_app; cbn;
+      try exact IH; try (unfold cntc in *; cbn; destruct (cls_eqb c (mk i)); cbn; lia); reflexivity.
   Qed.
 
   Lemma alive_from_index i os c :
@@ -273,11 +310,20 @@ Lemma tail_spec obs oc ofs ol s :
                     ++ (if tail_run obs oc then [CCore] else [])
                     ++ (if tail_core obs oc then alive_from CFrontend 0 ofs else []))
              (l' ++ log s) (v_core s || tail_core obs oc)) /\
-    forallb quiet_ev l' = true /\
+    (forallb quiet_ev l' = true /\
+     forall c, log_bal c (alive_from CBackend 0 obs
+                          ++ (if tail_run obs oc then [CCore] else [])
+                          ++ (if tail_core obs oc then alive_from CFrontend 0 ofs else [])) l') /\
     status_of r = (if negb (existsb is_intr obs) && match oc with ODecl => true | _ => false end
                    then 1 else 0)%Z.
 Proof.
   intros Hsm.
+  assert (HbB := fun c => start_log_bal CBackend c obs 0).
+  assert (HbF := fun c => start_log_bal CFrontend c ofs 0).
+  assert (Hcore1 : forall c, log_bal c [CCore] [EStart CCore])
+    by (intros c; unfold log_bal, cntc; cbn; destruct (cls_eqb c CCore); reflexivity).
+  assert (Hcore0 : forall c, log_bal c [] [EDied CCore; EStart CCore])
+    by (intros c; unfold log_bal, cntc; cbn; destruct (cls_eqb c CCore); reflexivity).
   assert (Hfb : fresh_from CBackend 0 (reg s)).
   { apply fresh_small. intros d Hd j. destruct (Hsm d Hd) as [-> | ->]; reflexivity. }
   assert (Hnf : forall d, In d (reg s) -> is_frontend d = false).
@@ -288,7 +334,7 @@ Proof.
   unfold tail_core, tail_run.
   destruct (existsb is_intr obs) eqn:Hib; cbn [negb andb].
   - exists (Exc XKbd), (start_log CBackend 0 obs). rewrite !app_nil_r, orb_false_r.
-    repeat split. apply start_log_quiet.
+    split; [reflexivity|]. split; [|reflexivity]. split; [apply start_log_quiet|apply HbB].
   - assert (Hq := start_log_quiet CBackend 0 obs).
     destruct oc; cbn -[alive_from start_log start_each].
     + (* core starts *)
@@ -306,14 +352,28 @@ Proof.
       * exists (Exc XKbd), (start_log CFrontend 0 ofs ++ EStart CCore :: start_log CBackend 0 obs).
         split; [|split; [|reflexivity]].
         -- f_equal. f_equal; [now rewrite <- !app_assoc|now rewrite <- app_assoc].
-        -- rewrite forallb_app. cbn. now rewrite (start_log_quiet CFrontend), Hq.
+        -- split; [rewrite forallb_app; cbn; now rewrite (start_log_quiet CFrontend), Hq|].
+           intros c. change (EStart CCore :: start_log CBackend 0 obs)
+             with ([EStart CCore] ++ start_log CBackend 0 obs).
+             rewrite (app_assoc (start_log CFrontend 0 ofs)).
+           apply log_bal_app; [apply HbB|].
+           apply (log_bal_app c [CCore] (alive_from CFrontend 0 ofs) [EStart CCore]); [apply Hcore1|apply HbF].
       * unfold loop_run, bind, emit. cbn -[alive_from start_log].
         exists (match ol with LQuit => Val tt | LKbd => Exc XKbd | LExc => Exc XOther end),
           (ELoop :: start_log CFrontend 0 ofs ++ EStart CCore :: start_log CBackend 0 obs).
         split; [|split].
         -- destruct ol; cbn -[alive_from start_log]; f_equal; f_equal;
              try (now rewrite <- !app_assoc); cbn; f_equal; now rewrite <- app_assoc.
-        -- cbn. rewrite forallb_app. cbn. now rewrite (start_log_quiet CFrontend), Hq.
+        -- split; [cbn; rewrite forallb_app; cbn; now rewrite (start_log_quiet CFrontend), Hq|].
+           intros c.
+           assert (Hl : log_bal c (alive_from CBackend 0 obs ++ [CCore] ++ alive_from CFrontend 0 ofs)
+                                (start_log CFrontend 0 ofs ++ EStart CCore :: start_log CBackend 0 obs)).
+           { change (EStart CCore :: start_log CBackend 0 obs)
+               with ([EStart CCore] ++ start_log CBackend 0 obs).
+             rewrite (app_assoc (start_log CFrontend 0 ofs)).
+             apply log_bal_app; [apply HbB|].
+             apply (log_bal_app c [CCore] (alive_from CFrontend 0 ofs) [EStart CCore]); [apply Hcore1|apply HbF]. }
+           exact Hl.
         -- now destruct ol.
     + exists (Exc XDecl), (start_log CBackend 0 obs).
       unfold start_core, bind. cbn. rewrite !app_nil_r, orb_false_r. auto.
@@ -327,14 +387,21 @@ Proof.
       2:{ intros d Hd. apply in_app_or in Hd as [Hd|Hd].
           - destruct (Hsm d Hd) as [-> | ->]; reflexivity.
           - apply alive_backend in Hd. destruct d; cbn in *; congruence. }
-      split; [reflexivity|]. split; [cbn; exact Hq|reflexivity].
+      split; [reflexivity|]. split; [|reflexivity]. split; [cbn; exact Hq|].
+      intros c. rewrite <- (app_nil_r (alive_from CBackend 0 obs)).
+      change (EDied CCore :: EStart CCore :: start_log CBackend 0 obs)
+        with ([EDied CCore; EStart CCore] ++ start_log CBackend 0 obs).
+      apply log_bal_app; [apply HbB|apply Hcore0].
     + exists (Exc XKbd), (start_log CBackend 0 obs).
       unfold start_core, bind. cbn. rewrite !app_nil_r, orb_false_r. auto.
     + (* the core is running but run() is interrupted before start_core returns *)
       exists (Exc XKbd), (EStart CCore :: start_log CBackend 0 obs).
       unfold start_core, bind. cbn -[alive_from start_log].
       rewrite orb_false_r, <- app_assoc.
-      split; [reflexivity|]. split; [cbn; exact Hq|reflexivity].
+      split; [reflexivity|]. split; [|reflexivity]. split; [cbn; exact Hq|].
+      intros c. change (EStart CCore :: start_log CBackend 0 obs)
+        with ([EStart CCore] ++ start_log CBackend 0 obs).
+      apply log_bal_app; [apply HbB|apply Hcore1].
 Qed.
 
 Lemma try_body_tail o :
@@ -350,6 +417,7 @@ Lemma try_body_spec o :
     (r, mkSt (mixer_alive o ++ audio_alive o ++ backends_alive o ++ core_alive o ++ frontends_alive o)
              l (core_started o)) /\
     forallb quiet_ev l = true /\
+    (forall c, log_bal c (mixer_alive o ++ audio_alive o ++ backends_alive o ++ core_alive o ++ frontends_alive o) l) /\
     status_of r = expected_status o.
 Proof.
   rewrite try_body_tail. destruct o as [hm om oa early obs oc ofs ol orst].
@@ -360,19 +428,24 @@ Proof.
   destruct hm, om, oa, early;
     cbn -[tail alive_from existsb];
     unfold bind; cbn -[tail alive_from existsb];
-    try (eexists; eexists; split; [reflexivity|split; reflexivity]);
+    try (eexists; eexists; split; [reflexivity|split; [reflexivity|split; [|reflexivity]]];
+         intros c; unfold log_bal, cntc; destruct c; reflexivity);
     match goal with
     | |- context [tail obs oc ofs ol ?s0] =>
         let H := fresh in
         assert (H : forall d, In d (reg s0) -> d = CMixer \/ d = CAudio)
           by (cbn; intros d Hd; repeat destruct Hd as [<-|Hd]; tauto);
-        destruct (tail_spec obs oc ofs ol s0 H) as (r & l' & Heq & Hq & Hst);
+        destruct (tail_spec obs oc ofs ol s0 H) as (r & l' & Heq & [Hq Hb] & Hst);
         rewrite Heq; clear Heq H;
         unfold tail_core, tail_run in *; cbn -[alive_from existsb] in *;
-        exists r; eexists; split; [|split; [|exact Hst]]
+        exists r; eexists; split; [|split; [|split; [|exact Hst]]]
     end.
   all: try (rewrite ?andb_true_r; reflexivity).
   all: try (cbn; rewrite forallb_app, Hq; reflexivity).
+  all: intros c; specialize (Hb c); clear - Hb; unfold log_bal, cntc in *;
+    rewrite ?died_of_app, ?starts_of_app, ?filter_app, ?app_length in *;
+    destruct c; cbn -[alive_from existsb] in *; rewrite ?andb_true_r in *;
+      rewrite ?filter_app, ?app_length in *; lia.
 Qed.
 
 (* ------------------------------------------------------------------------------------ *)
@@ -496,11 +569,12 @@ Lemma run_closed_form_lemma o :
     run_command o = (Val (expected_status o), s) /\
     reg s = [] /\
     forallb quiet_ev quietlog = true /\
+    (forall c, cntc c (expected_stops o) + cntc c (died_of quietlog) = cntc c (starts_of quietlog)) /\
     events s = quietlog ++ map EStop (frontends_alive o)
                         ++ (if save_due o then [ESave] else [])
                         ++ map EStop (core_alive o ++ backends_alive o ++ audio_alive o ++ mixer_alive o).
 Proof.
-  destruct (try_body_spec o) as (r & l & Heq & Hq & Hst).
+  destruct (try_body_spec o) as (r & l & Heq & Hq & Hbal & Hst).
   unfold run_command, run_with. rewrite Heq.
   assert (Hex : existsb (cls_eqb CCore) (core_alive o) = core_running o).
   { unfold core_alive. destruct (core_running o); reflexivity. }
@@ -509,9 +583,11 @@ Proof.
                      ++ rev (map EStop (core_alive o))
                      ++ (if existsb (cls_eqb CCore) (core_alive o) && o_restore o then [ESave] else [])
                      ++ rev (map EStop (frontends_alive o)) ++ l) (core_started o)), (rev l).
-    split; [|split; [reflexivity|split]].
+    split; [|split; [reflexivity|split; [|split]]].
     + f_equal. f_equal. exact Hst.
     + now rewrite forallb_rev.
+    + intros c. rewrite cntc_starts_rev, cntc_died_rev. specialize (Hbal c). unfold log_bal in Hbal.
+      rewrite <- Hbal. unfold expected_stops. rewrite !cntc_app. lia.
     + unfold events, save_due. cbn [log]. rewrite !rev_app_distr, !rev_involutive, <- !app_assoc.
       rewrite (andb_comm (o_restore o)), Hex.
       f_equal. f_equal.
@@ -535,7 +611,7 @@ Lemma run_stops_lemma o :
             remains_of (events s) = [] /\
             saves_of (events s) = (if save_due o then 1 else 0).
 Proof.
-  destruct (run_closed_form_lemma o) as (s & q & Hrun & Hreg & Hq & Hev).
+  destruct (run_closed_form_lemma o) as (s & q & Hrun & Hreg & Hq & Hbalq & Hev).
   exists s. split; [assumption|split; [assumption|]]. rewrite Hev. split; [|split].
   - rewrite stops_of_quiet_prefix by assumption.
     rewrite !stops_of_app, !stops_of_map_stop. unfold expected_stops.
@@ -630,7 +706,7 @@ Theorem state_saved_once_lemma :
        stops_of before = frontends_alive o /\ saves_of before = 0 /\
        after = map EStop ([CCore] ++ backends_alive o ++ audio_alive o ++ mixer_alive o)).
 Proof.
-  intros o. destruct (run_closed_form_lemma o) as (s & q & Hrun & Hreg & Hq & Hev).
+  intros o. destruct (run_closed_form_lemma o) as (s & q & Hrun & Hreg & Hq & Hbalq & Hev).
   exists (expected_status o), s, (q ++ map EStop (frontends_alive o)),
     (map EStop (core_alive o ++ backends_alive o ++ audio_alive o ++ mixer_alive o)).
   split; [assumption|]. split.
@@ -764,4 +840,38 @@ Proof.
   intros o. destruct (run_stops_lemma o) as (s & Hrun & _ & Hst & _ & _).
   exists (expected_status o), s. split; [assumption|]. rewrite Hst. split; [apply expected_stops_NoDup|].
   intros c. reflexivity.
+Qed.
+
+(* ------------------------------------------------------------------------------------ *)
+(* bookkeeping over the whole run: every actor that was registered either died in on_start
+   or was stopped by one of the ordered stop_* helpers - exactly once                      *)
+Theorem started_balance_lemma :
+  forall o, exists z s,
+      run_command o = (Val z, s) /\
+      (forall c, cntc c (starts_of (events s)) =
+                 cntc c (died_of (events s)) + cntc c (stops_of (events s))) /\
+      (forall c, cntc c (stops_of (events s)) <= 1) /\
+      remains_of (events s) = [].
+Proof.
+  intros o. destruct (run_closed_form_lemma o) as (s & q & Hrun & Hreg & Hq & Hbalq & Hev).
+  destruct (run_stops_lemma o) as (s' & Hrun' & _ & Hst & Hrem & _).
+  rewrite Hrun in Hrun'. injection Hrun' as <-.
+  exists (expected_status o), s. split; [assumption|]. split; [|split; [|assumption]].
+  - intros c. rewrite Hst. rewrite Hev.
+    rewrite !starts_of_app, !died_of_app, !starts_of_map_stop, !died_of_map_stop.
+    assert (Hs : starts_of (if save_due o then [ESave] else []) = []) by (destruct (save_due o); reflexivity).
+    assert (Hd : died_of (if save_due o then [ESave] else []) = []) by (destruct (save_due o); reflexivity).
+    rewrite Hs, Hd, !app_nil_r. specialize (Hbalq c). lia.
+  - intros c. rewrite Hst. pose proof (expected_stops_NoDup o) as Hnd.
+    clear - Hnd. unfold cntc. induction (expected_stops o) as [|d l IH]; [cbn; lia|].
+    inversion Hnd as [|? ? Hnin Hnd']; subst. cbn [filter].
+    destruct (cls_eqb c d) eqn:E.
+    + assert (c = d) by (destruct c, d; cbn in E; try discriminate; try reflexivity;
+                         apply Nat.eqb_eq in E; now subst). subst d.
+      assert (H0 : filter (cls_eqb c) l = []).
+      { apply filter_none. intros x Hx. destruct (cls_eqb c x) eqn:Ex; [|reflexivity]. exfalso.
+        assert (c = x) by (destruct c, x; cbn in Ex; try discriminate; try reflexivity;
+                           apply Nat.eqb_eq in Ex; now subst). subst x. contradiction. }
+      rewrite H0. cbn. lia.
+    + apply IH. assumption.
 Qed.
